@@ -101,6 +101,8 @@ def run_property(pid, cases, tier, chunk=30, title='', bounds=None, cfg=None, ex
         core.write_evidence(pid, ev)
     print('%s %s: %d cases, %d verified for all inputs, %d inconclusive, %d violations, %d known-finding hits, %d spurious; %d paths, %.1fs' % (
         pid, tier, rep.cases, n_verified, ev['coverage']['cases_inconclusive'], violations, len(rep.known_hits), len(spurious), rep.paths, time.time() - t0))
+    for sp in spurious[:5]:
+        print('  spurious (solver model did not reproduce on go vs gopherjs+node): %s %s go=%s js=%s' % (sp.get('tag'), json.dumps(sp.get('model')), sp.get('go'), sp.get('js') or sp.get('replay_error')))
     if getattr(rep, 'solver_errors', None):
         print('  solver errors:', rep.solver_errors[:2])
     for k, v in list(inconc.items())[:8]:
